@@ -1,13 +1,217 @@
-(* C14 — generated message and object codecs match the protocol descriptions. *)
-From LibTw2 Require Import Base.Res Model.Varint Model.Packer Model.Codec Proofs.CodecMatch.
+(* C14 — generated message and object codecs match the protocol descriptions.
+
+   Rs_<proto>   : the codec tables read off the generated Rust (gamenet/<proto>/src)
+   Spec_<proto> : the codec tables derived from gamenet/generate/spec/<proto>.json alone
+   Model/Codec.v: one interpreter giving every table entry its meaning (tied to the real
+                  crates by the correspondence run of ./check).
+   This file holds only the property theorems, each closed by lemmas from Proofs/Codec*.v. *)
+From LibTw2 Require Import Base.Res Model.Varint Model.Packer Model.Codec
+  Proofs.VarintProofs Proofs.CodecMatch Proofs.CodecDecode Proofs.CodecEncode Proofs.CodecTotal
+  Proofs.CodecReject Proofs.CodecObj Proofs.CodecMsg Proofs.CodecAll.
 From LibTw2 Require Gen.Rs_tw05 Gen.Spec_tw05 Gen.Rs_tw06 Gen.Spec_tw06 Gen.Rs_tw07 Gen.Spec_tw07
   Gen.Rs_ddnet Gen.Spec_ddnet.
-From Coq Require Import ZArith List String.
+From Coq Require Import ZArith List String Lia.
 Open Scope Z_scope.
+
+(* ---- 1. every generated codec is the described one (re-decided on every run; a failure
+        prints the names of the codecs that differ) ---- *)
 
 Theorem C14_codecs_match_tw05 :
   Rs_tw05.codecs = Spec_tw05.codecs /\ Rs_tw05.objs = Spec_tw05.objs
   /\ Rs_tw05.codec_names = Spec_tw05.codec_names /\ Rs_tw05.obj_names = Spec_tw05.obj_names.
 Proof. apply tables_match_nil. vm_compute. reflexivity. Qed.
 
+Theorem C14_codecs_match_tw06 :
+  Rs_tw06.codecs = Spec_tw06.codecs /\ Rs_tw06.objs = Spec_tw06.objs
+  /\ Rs_tw06.codec_names = Spec_tw06.codec_names /\ Rs_tw06.obj_names = Spec_tw06.obj_names.
+Proof. apply tables_match_nil. vm_compute. reflexivity. Qed.
+
+Theorem C14_codecs_match_tw07 :
+  Rs_tw07.codecs = Spec_tw07.codecs /\ Rs_tw07.objs = Spec_tw07.objs
+  /\ Rs_tw07.codec_names = Spec_tw07.codec_names /\ Rs_tw07.obj_names = Spec_tw07.obj_names.
+Proof. apply tables_match_nil. vm_compute. reflexivity. Qed.
+
+Theorem C14_codecs_match_ddnet :
+  Rs_ddnet.codecs = Spec_ddnet.codecs /\ Rs_ddnet.objs = Spec_ddnet.objs
+  /\ Rs_ddnet.codec_names = Spec_ddnet.codec_names /\ Rs_ddnet.obj_names = Spec_ddnet.obj_names.
+Proof. apply tables_match_nil. vm_compute. reflexivity. Qed.
+
+(* ---- 2. every generated codec is well-formed, and no dispatcher has two arms for one id ---- *)
+
+Theorem C14_wf_all :
+  forallb wf_codec all_codecs = true /\ forallb wf_ocodec all_objs = true
+  /\ ids_unique Rs_tw05.codecs = true /\ ids_unique Rs_tw06.codecs = true
+  /\ ids_unique Rs_tw07.codecs = true /\ ids_unique Rs_ddnet.codecs = true
+  /\ (List.length all_codecs = 287 /\ List.length all_objs = 99)%nat.
+Proof. vm_compute. repeat split. Qed.
+
+(* ---- 3. round trip, for EVERY well-formed codec and EVERY described value ---- *)
+
+(* the canonical bytes decode to the value, without warnings (demo framing or not), and the
+   generated encode writes exactly the canonical bytes — or reports CapacityError, exactly when
+   they do not fit *)
+Theorem C14_roundtrip : forall c demo vs cap, wf_codec c = true -> well_typed (c_dec c) vs = true ->
+  decode c demo (canonical c vs) = Ok (vs, [])
+  /\ encode c vs cap = if (List.length (canonical c vs) <=? cap)%nat then Ok (canonical c vs) else Err CapacityErr.
+Proof.
+  intros c demo vs cap Hwf Ht. destruct (wf_parts c Hwf) as [Hm [Hl [He _]]]. split.
+  - apply decode_canonical; assumption.
+  - apply encode_canonical; assumption.
+Qed.
+
+(* the same through the dispatchers: id in front (ordinal << 1 | sys, or sys-flag + UUID, or the
+   8-byte connless id), table lookup, body *)
+Theorem C14_msg_roundtrip : forall tbl c demo vs cap, ids_unique tbl = true -> In c tbl ->
+  wf_codec c = true -> well_typed (c_dec c) vs = true ->
+  match c_kind c with
+  | KSystem => decode_sysgame tbl true demo (canonical_msg c vs) = (Ok (c, vs), [])
+  | KGame => decode_sysgame tbl false demo (canonical_msg c vs) = (Ok (c, vs), [])
+  | KConnless => decode_connless tbl demo (canonical_msg c vs) = (Ok (c, vs), [])
+  | KObjMsg => True
+  end
+  /\ (c_kind c <> KObjMsg ->
+      encode_msg c vs cap =
+      if (List.length (canonical_msg c vs) <=? cap)%nat then Ok (canonical_msg c vs) else Err CapacityErr).
+Proof.
+  intros tbl c demo vs cap Hu Hin Hwf Ht. split.
+  - destruct (c_kind c) eqn:Ek; [| | |exact I].
+    + pose proof (decode_sysgame_canonical tbl c demo vs Hu Hin Hwf (or_introl Ek) Ht) as H.
+      unfold is_sys in H. rewrite Ek in H. exact H.
+    + pose proof (decode_sysgame_canonical tbl c demo vs Hu Hin Hwf (or_intror Ek) Ht) as H.
+      unfold is_sys in H. rewrite Ek in H. exact H.
+    + exact (decode_connless_canonical tbl c demo vs Hu Hin Hwf Ek Ht).
+  - intros Hk. apply encode_msg_canonical; assumption.
+Qed.
+
+(* instantiated: every generated (= described, by 1.) codec round-trips *)
+Theorem C14_generated_roundtrip : forall c, In c all_codecs -> forall demo vs cap,
+  well_typed (c_dec c) vs = true ->
+  decode c demo (canonical c vs) = Ok (vs, [])
+  /\ encode c vs cap = if (List.length (canonical c vs) <=? cap)%nat then Ok (canonical c vs) else Err CapacityErr.
+Proof.
+  intros c Hin demo vs cap Ht. apply C14_roundtrip; [|exact Ht].
+  destruct C14_wf_all as [H _]. rewrite forallb_forall in H. apply H, Hin.
+Qed.
+
+(* ---- 4. a violated constraint is rejected, with the error of the violated member ---- *)
+
+(* members pre are described values, member m has the right shape but breaks its constraint
+   (out-of-range / negative / below-minimum / non-boolean int, unknown enum value, control
+   character in a strict string, text that is not an i32): the decoder fails with that error,
+   whatever follows *)
+Theorem C14_rejects : forall c demo pre m post vs v e tail, c_dec c = pre ++ m :: post ->
+  forallb mop_ok pre = true -> no_rest pre = true -> well_typed pre vs = true ->
+  violation m v = Some e -> bytes_ok tail = true ->
+  decode c demo (enc_values pre vs ++ raw_value m v ++ tail) = Err e.
+Proof. exact rejects. Qed.
+
+(* input that ends in front of a member that must read, or inside a fixed-size raw member
+   (uuid, sha256, u8, be_u16) *)
+Theorem C14_rejects_short : forall c demo pre m post vs r, c_dec c = pre ++ m :: post ->
+  forallb mop_ok pre = true -> no_rest pre = true -> well_typed pre vs = true -> mop_ok m = true ->
+  short_for m r = true -> bytes_ok r = true ->
+  decode c demo (enc_values pre vs ++ r) = Err UnexpectedEnd.
+Proof. exact rejects_short. Qed.
+
+(* ---- 5. decoding is total: a value or an error, on every byte string / word list ---- *)
+
+Theorem C14_total :
+  (forall c demo bs, forallb mop_ok (c_dec c) = true -> ok_or_err (decode c demo bs))
+  /\ (forall tbl sys demo bs, tbl_ok tbl = true -> ok_or_err (fst (decode_sysgame tbl sys demo bs)))
+  /\ (forall tbl demo bs, tbl_ok tbl = true -> ok_or_err (fst (decode_connless tbl demo bs)))
+  /\ (forall tbl id ws, ok_or_err (fst (decode_snap_obj tbl id ws)))
+  /\ tbl_ok all_codecs = true.
+Proof.
+  split; [intros; apply decode_total; assumption|].
+  split; [exact decode_sysgame_total|]. split; [exact decode_connless_total|].
+  split; [exact decode_snap_obj_total|]. vm_compute. reflexivity.
+Qed.
+
+(* ---- 6. snapshot objects are re-exposed as the same words — unless the struct has a bool ---- *)
+
+Theorem C14_obj_words : forall o ws vs pad, wf_ocodec o = true -> k14 o = false -> o_dec o <> [] ->
+  forallb is_i32 ws = true -> decode_obj o ws = (Ok vs, false) ->
+  encode_obj o vs pad = Ok ws.
+Proof.
+  intros o ws vs pad Hwf Hk. apply obj_words; [exact Hwf|].
+  unfold k14 in Hk. destruct (no_bool o); [reflexivity|discriminate].
+Qed.
+
+(* exactly these generated objects are in class K14 *)
+Theorem C14_k14_objects :
+  k14_names Rs_tw05.obj_names Rs_tw05.objs = [] /\ k14_names Rs_tw06.obj_names Rs_tw06.objs = []
+  /\ k14_names Rs_tw07.obj_names Rs_tw07.objs
+     = ["obj_player_input"; "obj_de_client_info"; "obj_damage"]%string
+  /\ k14_names Rs_ddnet.obj_names Rs_ddnet.objs = ["obj_ddnet_spectator_info"]%string
+  /\ forallb (fun o => negb (match o_dec o with [] => true | _ => false end)) all_objs = true.
+Proof. vm_compute. repeat split. Qed.
+
+(* K14: 0.7 PlayerInput, decoded from [1,10,-10,1,7,0,3,2,0,0], comes back with whatever the
+   padding bytes next to `jump` and `hook` hold — here 0xde *)
+Theorem K14_refuted : exists o ws vs pad ws',
+  In o Rs_tw07.objs /\ wf_ocodec o = true /\ k14 o = true /\ forallb is_i32 ws = true
+  /\ decode_obj o ws = (Ok vs, false) /\ encode_obj o vs pad = Ok ws' /\ ws' <> ws
+  /\ ws = [1; 10; -10; 1; 7; 0; 3; 2; 0; 0]
+  /\ ws' = [1; 10; -10; -555819519; 7; -555819520; 3; 2; 0; 0].
+Proof.
+  exists Rs_tw07.obj_player_input, [1; 10; -10; 1; 7; 0; 3; 2; 0; 0],
+    [VInt 1; VInt 10; VInt (-10); VBool true; VInt 7; VBool false; VInt 3; VInt 2; VInt 0; VInt 0],
+    (fun _ => 222), [1; 10; -10; -555819519; 7; -555819520; 3; 2; 0; 0].
+  repeat split; try (vm_compute; reflexivity); try discriminate.
+  vm_compute. tauto.
+Qed.
+
+(* the [bool; 6] of 0.7 DeClientInfo packs six members into two words: 54 words come back for 58 *)
+Theorem K14_refuted_length : exists o ws vs pad ws',
+  In o Rs_tw07.objs /\ decode_obj o ws = (Ok vs, false) /\ encode_obj o vs pad = Ok ws'
+  /\ List.length ws = 58%nat /\ List.length ws' = 54%nat.
+Proof.
+  exists Rs_tw07.obj_de_client_info, (repeat 0 58).
+  eexists. exists (fun _ => 0). eexists.
+  split; [vm_compute; tauto|]. split; [vm_compute; reflexivity|]. split; [vm_compute; reflexivity|].
+  split; reflexivity.
+Qed.
+
+(* ---- non-vacuity ---- *)
+
+Example C14_nonvacuous :
+  (* 0.6 connless Info: int-strings, strict strings, a client list *)
+  let c := Rs_tw06.connless_info in
+  let vs := [VInt (-7); VBytes [48; 46; 54]; VBytes [97; 98]; VBytes [100; 109; 49]; VBytes [68; 77];
+             VInt 1; VInt 2; VInt 16; VInt 3; VInt 16; VBytes [110; 0; 99; 0]] in
+  wf_codec c = true /\ well_typed (c_dec c) vs = true
+  /\ canonical_msg c vs = [255; 255; 255; 255; 105; 110; 102; 51; 45; 55; 0; 48; 46; 54; 0; 97; 98; 0; 100; 109; 49; 0;
+                           68; 77; 0; 49; 0; 50; 0; 49; 54; 0; 51; 0; 49; 54; 0; 110; 0; 99; 0]
+  /\ decode_connless Rs_tw06.codecs false (canonical_msg c vs) = (Ok (c, vs), [])
+  /\ encode_msg c vs 41 = Ok (canonical_msg c vs) /\ encode_msg c vs 40 = Err CapacityErr
+  (* a control character in the (strict) name is rejected *)
+  /\ violation MStrStrict (VBytes [97; 31]) = Some ControlCharacters
+  /\ decode c false ([45; 55; 0; 48; 46; 54; 0] ++ [97; 31; 0] ++ [1; 2; 3]) = Err ControlCharacters
+  (* 0.6 game SvEmoticon: a ranged int one past its maximum, an unknown enum value *)
+  /\ violation (MI (IRange 0 15)) (VInt 16) = Some IntOutOfRange
+  /\ decode_sysgame Rs_tw06.codecs false false [20; 16; 0] = (Err IntOutOfRange, [])
+  /\ decode_sysgame Rs_tw06.codecs false false [20; 15; 16] = (Err IntOutOfRange, [])
+  /\ decode_sysgame Rs_tw06.codecs false false [20; 15; 14]
+     = (Ok (Rs_tw06.game_sv_emoticon, [VInt 15; VInt 14]), [])
+  (* an object without a bool member gives its words back *)
+  /\ wf_ocodec Rs_tw06.obj_player_input = true /\ k14 Rs_tw06.obj_player_input = false
+  /\ decode_obj Rs_tw06.obj_player_input [1; 10; -10; 1; 7; 0; 3; 2; 0; 0]
+     = (Ok [VInt 1; VInt 10; VInt (-10); VInt 1; VInt 7; VInt 0; VInt 3; VInt 2; VInt 0; VInt 0], false).
+Proof. vm_compute. repeat split. Qed.
+
 Print Assumptions C14_codecs_match_tw05.
+Print Assumptions C14_codecs_match_tw06.
+Print Assumptions C14_codecs_match_tw07.
+Print Assumptions C14_codecs_match_ddnet.
+Print Assumptions C14_wf_all.
+Print Assumptions C14_roundtrip.
+Print Assumptions C14_msg_roundtrip.
+Print Assumptions C14_generated_roundtrip.
+Print Assumptions C14_rejects.
+Print Assumptions C14_rejects_short.
+Print Assumptions C14_total.
+Print Assumptions C14_obj_words.
+Print Assumptions C14_k14_objects.
+Print Assumptions K14_refuted.
+Print Assumptions K14_refuted_length.
+Print Assumptions C14_nonvacuous.
